@@ -98,7 +98,7 @@ class BitArray:
         res = self._data[:, None] >> self._shifts
         res[:-1] |= self._data[1:, None] << rev_shifts
         res &= mask
-        return res.ravel()[:self._shape[0] - window_size + 1]
+        return res.ravel()[:self._shape[0] - int(window_size) + 1]
 
 
 class BitMask(BitArray):
